@@ -696,7 +696,7 @@ def main(ck):
                               "Go harness cmd/c08 (generator, reference evaluator ref.go, canonicaliser), python driver props/C08/run.py",
                               "ts-server HTTP API (/write, /query, /debug/ctrl) as the observation interface"]
     ck.coq_audit([PID])
-    ok = ck.coq_build(["C08/Proofs.vo", "C08/DescMerge.vo", "C08/Rpn.vo", "C08/Prune.vo", "C08/Window.vo", "C08/PipeProofs.vo", "C08/Corr.vo", "C08/Props.vo", "C08/Refuted.vo"])
+    ok = ck.coq_build(["C08/Proofs.vo", "C08/DescMerge.vo", "C08/Rpn.vo", "C08/Prune.vo", "C08/Window.vo", "C08/WindowPart.vo", "C08/PipeProofs.vo", "C08/Corr.vo", "C08/Props.vo", "C08/Refuted.vo"])
     if ok:
         ck.coq_props(["C08/Props.v", "C08/Refuted.v"])
     server = ck.go_build_repo("./app/ts-server", "ts-server")
